@@ -110,8 +110,8 @@ class Uninit:
 UNINIT = Uninit()
 
 VARIANT_IDX = {'None': 0, 'Some': 1, 'Ok': 0, 'Err': 1, 'Less': -1, 'Equal': 0, 'Greater': 1, 'V4': 0, 'V6': 1,
-               'Borrowed': 0, 'Owned': 1, 'NotPresent': 0, 'NotUnicode': 1, 'Start': 0, 'End': 1, 'Current': 2}
-VARIANT_BY_IDX = {('Option', 0): 'None', ('Option', 1): 'Some', ('Result', 0): 'Ok', ('Result', 1): 'Err'}
+               'Borrowed': 0, 'Owned': 1, 'NotPresent': 0, 'NotUnicode': 1, 'Start': 0, 'End': 1, 'Current': 2, 'Continue': 0, 'Break': 1}
+VARIANT_BY_IDX = {('Option', 0): 'None', ('Option', 1): 'Some', ('Result', 0): 'Ok', ('Result', 1): 'Err', ('ControlFlow', 0): 'Continue', ('ControlFlow', 1): 'Break'}
 
 
 class Unsupported(Exception):
